@@ -1,6 +1,6 @@
 (** Properties/C02.v — "The newest cross-reference entry for an object always wins".
     Only statements, each closed by [exact] of a lemma proved in XRef/. *)
-From PdfV Require Import Base.Prelude Gen.Generated XRef.Model XRef.Spec XRef.MergeProofs XRef.StreamProofs XRef.FrontProofs XRef.TableProofs XRef.At XRef.AtProofs XRef.AtExample Syn.Prim Syn.Parser Syn.Spells Syn.RenderProofs.
+From PdfV Require Import Base.Prelude Gen.Generated XRef.Model XRef.Spec XRef.MergeProofs XRef.StreamProofs XRef.FrontProofs XRef.TableProofs XRef.At XRef.AtProofs XRef.AtExample XRef.TotalProofs Syn.Prim Syn.Parser Syn.Spells Syn.RenderProofs.
 Set Warnings "-notation-overridden".   (* also ends the import list for the dependency scanner of tools/vplib *)
 
 (** For every well-formed history, every subsection split of every update and every /Size (growing or not):
@@ -54,6 +54,26 @@ Print Assumptions C02_table_roundtrip.
 Theorem C02_table_row_20 : forall e el, row_fits e -> lenN (print_row e el) = 20.
 Proof. exact print_row_len. Qed.
 Print Assumptions C02_table_row_20.
+
+(** For ALL inputs (well-formed or not) the classic-table reader and locate_xref_offset end in a value or an error
+    value: there is no panic site, and the fuel of the model's loops always suffices because every lexeme consumes
+    input (next_word_total) — so "OutOfFuel" is not an outcome of these models. *)
+Theorem C02_table_total : forall s, no_panic (read_xref_table_at s).
+Proof. exact read_xref_table_at_total. Qed.
+Print Assumptions C02_table_total.
+
+Theorem C02_locate_xref_total : forall file, no_panic (locate_xref_offset file).
+Proof. exact locate_xref_offset_total. Qed.
+Print Assumptions C02_locate_xref_total.
+
+Theorem C02_lexer_progress : forall s,
+  match next_word s with
+  | Ok (_, _, s') => (length (lrest s') < length (lrest s))%nat
+  | Err _ => True
+  | _ => False
+  end.
+Proof. exact next_word_total. Qed.
+Print Assumptions C02_lexer_progress.
 
 (** One classic section as it stands in a file — the table in any layout of C02_table_roundtrip followed by the
     trailer dictionary in ANY conforming spelling (Syn/Spells.v: the specification object of C03) and a tail the
